@@ -377,15 +377,26 @@ def readRows (ncols : Nat) : Nat → Nat → Bytes → List (List (Option Bytes)
       let (r, e) := readRows ncols n (ridx + 1) b
       (cells :: r, e)
 
-/-- Every item `RawRowIterator` yields when it is iterated to the end WITHOUT stopping at an error
-(`deserialize/result.rs:60-82`): `remaining` is decremented per item and a failing row neither advances the slice
-nor ends the iteration, so after the first failing row the same error is produced for every remaining announced row.
-(By design: the iterator is an `ExactSizeIterator` of `rows_count` items.) -/
+/-- The row-skipping loop of `RawRowIterator::next` (`deserialize/result.rs:60-82`): `self.slice.read_cql_bytes()`
+per column; `read_cql_bytes` advances the iterator's slice after every cell it could read and leaves it at the
+failing cell otherwise.  Returns the failure (column index, kind), if any, and where the slice is afterwards. -/
+def skipRow : Nat → Nat → Bytes → Option (Nat × String) × Bytes
+  | 0, _, buf => (none, buf)
+  | n + 1, idx, buf =>
+    match readBytesOpt { buf := buf } with
+    | (.ok _, s) => skipRow n (idx + 1) s.buf
+    | (.err k, _) => (some (idx, k), buf)
+    | (.panic k, _) => (some (idx, "PANIC " ++ k), buf)
+
+/-- Every item `RawRowIterator` yields when it is iterated to the end WITHOUT stopping at an error: `remaining` is
+decremented per item and a failing row does not end the iteration; the next row starts where the failing one
+stopped, i.e. AT THE FAILING CELL (the cells before it were consumed), so the following items fail at column 0.
+(The comment in `size_hint` — "Errs containing that same first encountered error" — is inexact about the column.) -/
 def iterRows (ncols : Nat) : Nat → Bytes → List (Except (Nat × String) (List (Option Bytes)))
   | 0, _ => []
   | n + 1, buf =>
     match readCells ncols 0 buf with
-    | .error e => .error e :: iterRows ncols n buf
+    | .error e => .error e :: iterRows ncols n (skipRow ncols 0 buf).2
     | .ok (cells, b) => .ok cells :: iterRows ncols n b
 
 inductive ResultResp where
